@@ -316,7 +316,8 @@ Qed.
 
 Theorem retry_covered b e c F :
   inv b -> requester e = Some c -> uncovered b e = false ->
-  retry_ok b c e (step_f F b e).
+  forall b', step_f F b e = OOk b' [(c, MError ENoMemory)] -> step_f F b e <> step b e ->
+  same_outcome (step b' e) (step b e) /\ step b e <> OStop.
 Proof.
   intros Hinv Hreq Hun b' Hf Hne.
   split; [|apply (covered_runs b e c no_fail Hinv Hreq Hun)].
